@@ -161,10 +161,12 @@ theorem rev_of_Rev2Ok {T} {ms : Mid} (hc : Ctx T ms.base) (hI : Inv T ms)
     | none => rfl
     | some rv => rw [hr] at hok; simp only [] at hok ⊢; rw [hde] at hok; exact hok
 
-theorem res_of_Res2Ok {T} {ms : Mid} (hc : Ctx T ms.base) (hI : Inv T ms) {revised : List Id} {r : Resolution2}
-    (h : Res2Ok ms revised r) : LiveFc2 T ms r.parent ∧ resNewOk r := by
+theorem res_of_Res2Ok {T} {ms : Mid} (hc : Ctx T ms.base) (hI : Inv T ms)
+    (hm2 : ∀ e ∈ ms.base.fc2, e.fc.missedHost ≤ e.fc.host.value) {revised : List Id} {r : Resolution2}
+    (h : Res2Ok ms revised r) : LiveFc2 T ms r.parent ∧ resNewOk r ∧ r.parent.fc.missedHost ≤ r.parent.fc.host.value := by
   obtain ⟨hs, _, hb, hm⟩ := h
-  refine ⟨live_of_base hc hI hs hb, ?_⟩
+  have hlv := live_of_base hc hI hs hb
+  refine ⟨hlv, ?_, hm2 _ hlv.2.1⟩
   unfold resNewOk
   cases hres : r.res with
   | renewal rn => rw [hres] at hm; exact hm.2
@@ -243,6 +245,7 @@ theorem ress_sums (l : List Resolution2)
 
 theorem v2txn_conserves {T} {ms ms' : Mid} {t : Txn2} {mw : Nat} {R : List (Kind × Id)}
     (hc : Ctx T ms.base) (hfix : ms.base.child ≥ ms.base.P.ephemeralFix) (hI : Inv T ms)
+    (hm2 : ∀ e ∈ ms.base.fc2, e.fc.missedHost ≤ e.fc.host.value)
     (hF : Fresh T ms (t.created ++ R))
     (hnw : (t.sfOuts.map (·.2.1)).sum < u64Limit) (hsfb : sfTot ms < u64Limit)
     (hv : validateV2Transaction ms t mw = .ok ()) (ha : applyV2Transaction ms t = .ok ms') :
@@ -269,7 +272,7 @@ theorem v2txn_conserves {T} {ms ms' : Mid} {t : Txn2} {mw : Nat} {R : List (Kind
   have pSc : ∀ sci ∈ t.scIns, SpendableSc T ms sci.parent := fun sci h => spendable_of_ScIn2Ok hc hI hfix (hsc sci h)
   have pSf : ∀ sfi ∈ t.sfIns, SpendableSf T ms sfi.parent := fun sfi h => spendable_of_SfIn2Ok hc hI hfix (hsf sfi h)
   have pRev := fun r h => rev_of_Rev2Ok hc hI hfix (hrevs r h)
-  have pRes := fun r h => res_of_Res2Ok hc hI (hress r h)
+  have pRes := fun r h => res_of_Res2Ok hc hI hm2 (hress r h)
   unfold Txn2.created at hF
   simp only [List.append_assoc] at hF
   -- 1. siacoin inputs
@@ -348,7 +351,7 @@ theorem v2txn_conserves {T} {ms ms' : Mid} {t : Txn2} {mw : Nat} {R : List (Kind
     obtain ⟨r, hr, he⟩ := List.mem_map.mp hm
     exact (pRev5 r hr).1.not_fresh F5 q hq he.symm)
   -- 7. resolutions
-  have pRes6 : ∀ r ∈ t.ress, LiveFc2 T ms6 r.parent ∧ resNewOk r := by
+  have pRes6 : ∀ r ∈ t.ress, LiveFc2 T ms6 r.parent ∧ resNewOk r ∧ r.parent.fc.missedHost ≤ r.parent.fc.host.value := by
     intro r h
     refine ⟨(live5 _ (pRes r h).1).agree r6.agree ?_, (pRes r h).2⟩
     exact (hress r h).2.1
